@@ -1085,6 +1085,10 @@ impl Compiler {
                     });
                 }
 
+                // The operand is converted to a number first: `s++` on "5" is 6, not "51",
+                // and the value of a postfix update is that number
+                self.builder.emit(Op::Plus { dst, src: dst });
+
                 if !update.prefix {
                     // Postfix: save original value
                     let original = self.builder.alloc_register()?;
@@ -1165,8 +1169,9 @@ impl Compiler {
 
                 let key_info = self.get_member_key_info(&member.property)?;
 
-                // Load current value
+                // Load current value, converted to a number
                 self.emit_get_property(dst, obj_reg, &key_info)?;
+                self.builder.emit(Op::Plus { dst, src: dst });
 
                 let one = self.builder.alloc_register()?;
                 self.builder.emit(Op::LoadInt { dst: one, value: 1 });
